@@ -2,8 +2,29 @@
 #include "common.hpp"
 #include "nixutil.hpp"
 #include "tree_props.hpp"
+#include "c03.hpp"
 
 using namespace vf;
+
+// The harness owns the clock (C12): the library's calls of time() resolve to this definition.
+extern "C" long g_fake_time;
+long g_fake_time = -1;
+extern "C" time_t time(time_t *out) {
+    static long env_time = [] {
+        const char *e = getenv("VERIF_FAKE_TIME");
+        return e ? atol(e) : -1L;
+    }();
+    time_t v;
+    if (g_fake_time >= 0) v = static_cast<time_t>(g_fake_time);
+    else if (env_time >= 0) v = static_cast<time_t>(env_time);
+    else {
+        struct timespec ts;
+        clock_gettime(CLOCK_REALTIME, &ts);
+        v = ts.tv_sec;
+    }
+    if (out) *out = v;
+    return v;
+}
 
 int main(int argc, char **argv) {
     if (argc >= 3 && std::string(argv[1]) == "dump") {
@@ -19,6 +40,16 @@ int main(int argc, char **argv) {
             return 4;
         }
     }
+    if (argc >= 4 && std::string(argv[1]) == "idworker") {
+        H5Eset_auto2(H5E_DEFAULT, nullptr, nullptr);
+        try {
+            for (auto &id : tp::idWorker(argv[2], static_cast<size_t>(atoi(argv[3])))) std::cout << id << "\n";
+            return 0;
+        } catch (const std::exception &e) {
+            std::cerr << e.what() << "\n";
+            return 4;
+        }
+    }
     if (argc < 3) {
         fprintf(stderr, "usage: h_tree <c02|c03|c04|c08|c09|c11|c12|c16|c20> run|replay <tape> [--out f] [--work d]\n");
         return 2;
@@ -30,9 +61,10 @@ int main(int argc, char **argv) {
     Options opt = parse_args(argc, argv, 2);
     int rc = 2;
     if (prop == "c02") rc = drive("C02", opt, tp::c02);
+    else if (prop == "c03") rc = drive("C03", opt, c03::body);
     else if (prop == "c04") rc = drive("C04", opt, tp::c04);
     else if (prop == "c08") rc = drive("C08", opt, tp::c08);
-    else if (prop == "c12") rc = drive("C12", opt, tp::c12hist);
+    else if (prop == "c12") rc = drive("C12", opt, tp::c12);
     if (opt.own_work) rm_rf(opt.work);
     return rc;
 }
